@@ -476,7 +476,8 @@ let judge_sched (which : string) g (obs : string) (pre : srv) (eui : n) : string
            | _ -> "ok")
      | "C07" ->
        if dup fcnts then (if snapshots_overlap then "bad:sched-downlink-counter-reused" else "bad:sched-downlink-counter-reused-without-overlap")
-       else if List.length fcnts > 0 && dv.x_fdn <> (int_of_n pre_row.d_fdn + List.length fcnts) land 0xffff then "bad:sched-downlink-counter-not-advanced-per-frame"
+       else if List.length fcnts > 0 && dv.x_fdn <> (int_of_n pre_row.d_fdn + List.length fcnts) land 0xffff then
+         (if snapshots_overlap then "bad:sched-stored-downlink-counter-put-back" else "bad:sched-downlink-counter-not-advanced-per-frame")
        else "ok"
      | "C09" ->
        if kind = "copies" && List.length data_downs > 1 then
